@@ -663,6 +663,10 @@ def r14_goto_dispatch(body, log):
             targets.append(m.group(1))
     if not targets:
         raise ExtractionError(f"{log.fn}: R14 requested but the body has no goto")
+    # labels that are only reached by falling through (or that lost their last goto) keep a state number as well
+    for m in re.finditer(r"(?:^|[;{}])\s*([A-Za-z_]\w*)\s*:(?!:)", body, flags=re.M):
+        if m.group(1) not in ("default", "case", "public", "private", "protected") and m.group(1) not in targets:
+            targets.append(m.group(1))
     pos = {}
     for t in targets:
         ms = [m for m in re.finditer(r"(?<![\w:?])" + re.escape(t) + r"\s*:(?!:)", body)]
